@@ -77,6 +77,13 @@
 (* Open for a burst: how notifications of DIFFERENT kinds interleave (the     *)
 (* balance notifications among themselves and the trade notifications among   *)
 (* themselves are in queue order; the projection re-pairs them).              *)
+(* What the requesters do AFTER their requests were taken is not a step of    *)
+(* the exchange: a requester that stops waiting, and also the LAST request    *)
+(* sender going away (the client is dropped, the exchange task ends) while    *)
+(* accepted orders are still inside the latency window, change nothing - the  *)
+(* balance and the trade notification of every accepted order are published   *)
+(* to whoever still listens to the account stream (a hang-up is a stutter:    *)
+(* Trace_MockExchange judges the history observed after it).                  *)
 (* Environment assumptions: initial balances have total = free (the code    *)
 (* asserts it: only market orders exist) and every asset of a listed        *)
 (* instrument has a balance entry (the code expects it).                    *)
